@@ -362,11 +362,70 @@ pub fn longspan(seed: u64, n: usize, out: &mut dyn Write) {
                 (i, t_before, t_after, wall0, wall1, el, e0, e1, d0, d1)
             }));
         }
+        // local spans that last more than a second: one in a local-parent scope, one still open
+        // when its local collector is collected (closed at the collection time), the set pushed
+        // to the root and converted with to_span_records
+        let lroot = Span::enter_with_parent(format!("ls-lroot-{k}"), &root);
+        let lms = 1020 + r.below(150) as u64;
+        let local_job = std::thread::spawn(move || {
+            let t0 = Instant::now();
+            let (a0, a1, c0, c1);
+            let set;
+            {
+                let _g = lroot.set_local_parent();
+                let l = LocalSpan::enter_with_local_parent(format!("ls-local-{k}"));
+                a0 = Instant::now();
+                let lc = fastrace::local::LocalCollector::start();
+                let open = LocalSpan::enter_with_local_parent(format!("ls-open-{k}"));
+                let o0 = Instant::now();
+                std::thread::sleep(Duration::from_millis(lms));
+                c0 = Instant::now();
+                set = lc.collect();
+                c1 = Instant::now();
+                // the span is still open at collection; its handle belongs to the collected
+                // scope and is simply given up (dropping it now is the ill-nested release that
+                // debug builds assert against)
+                std::mem::forget(open);
+                drop(l);
+                a1 = Instant::now();
+                let _ = o0;
+            }
+            lroot.push_child_spans(set.clone());
+            let conv = set.to_span_records(SpanContext::new(TraceId(5), SpanId(6)));
+            drop(lroot);
+            (t0, a0, a1, c0, c1, conv)
+        });
         let results: Vec<_> = handles.into_iter().filter_map(|h| h.join().ok()).collect();
+        let local_res = local_job.join().ok();
         drop(root);
         fastrace::flush();
         let recs: Vec<SpanRecord> = reports.lock().unwrap().drain(..).flatten().collect();
         let mut bad: Vec<String> = vec![];
+        if local_res.is_none() {
+            bad.push("the thread with the long local spans panicked".to_string());
+        }
+        if let Some((t0, a0, a1, c0, c1, conv)) = local_res {
+            let within = |name: &str, d: u64, lo: u64, hi: u64, bad: &mut Vec<String>| {
+                let (lo2, hi2) = (lo - lo / 50 - 3000.min(lo), hi + hi / 50 + 20000);
+                if d < lo2 || d > hi2 {
+                    bad.push(format!("{name}: duration {d} outside [{lo2}, {hi2}]"));
+                }
+            };
+            match recs.iter().find(|x| x.name == format!("ls-local-{k}")) {
+                None => bad.push(format!("ls-local-{k}: not delivered")),
+                Some(rec) => within(&rec.name, rec.duration_ns, c0.duration_since(a0).as_nanos() as u64, a1.duration_since(t0).as_nanos() as u64, &mut bad),
+            }
+            let lo = (lms * 1_000_000).saturating_sub(0);
+            let hi = c1.duration_since(a0).as_nanos() as u64;
+            match recs.iter().find(|x| x.name == format!("ls-open-{k}")) {
+                None => bad.push(format!("ls-open-{k}: the pushed copy was not delivered")),
+                Some(rec) => within(&format!("ls-open-{k} (pushed copy)"), rec.duration_ns, lo, hi, &mut bad),
+            }
+            match conv.iter().find(|x| x.name == format!("ls-open-{k}")) {
+                None => bad.push(format!("ls-open-{k}: missing from to_span_records")),
+                Some(rec) => within(&format!("ls-open-{k} (to_span_records)"), rec.duration_ns, lo, hi, &mut bad),
+            }
+        }
         for (i, t_before, t_after, wall0, wall1, el, e0, e1, d0, d1) in results {
             let name = format!("ls-{k}-{i}");
             let Some(rec) = recs.iter().find(|x| x.name == name) else { bad.push(format!("{name}: not delivered")); continue };
@@ -613,6 +672,30 @@ pub fn aged(seed: u64, n: usize, out: &mut dyn Write) {
                 bad.push(format!("cancelable trace delivered in {calls} report calls"));
             }
         }
+        // a very large cycle: thousands of records become reportable at once (one scope may hold
+        // up to 10240 local spans); every one must arrive, once
+        let bulk = match r.below(4) { 0 => 0usize, 1 => 4097, 2 => 5000 + r.below(3000), _ => 8192 + r.below(1900) };
+        if bulk > 0 {
+            let bt = trace_of(warm + 1);
+            a.run(move || {
+                let root = Span::root("bulk-root", SpanContext::new(TraceId(bt), SpanId(9)));
+                {
+                    let _g = root.set_local_parent();
+                    for _ in 0..bulk {
+                        let _l = LocalSpan::enter_with_local_parent("bulk-local");
+                    }
+                }
+                drop(root);
+            });
+            fastrace::verif::run_collector_cycle();
+            fastrace::verif::run_collector_cycle();
+            let got: Vec<Vec<SpanRecord>> = reports.lock().unwrap().drain(..).collect();
+            let nl: usize = got.iter().map(|x| x.iter().filter(|y| y.trace_id.0 == bt && y.name == "bulk-local").count()).sum();
+            let nr: usize = got.iter().map(|x| x.iter().filter(|y| y.trace_id.0 == bt && y.name == "bulk-root").count()).sum();
+            if nl != bulk || nr != 1 {
+                bad.push(format!("a scope of {bulk} local spans finished before one cycle: {nl} local records and {nr} root records delivered"));
+            }
+        }
         let st = fastrace::verif::collector_stats();
         if !st.active.is_empty() && bad.is_empty() {
             bad.push(format!("{} traces retained after everything finished", st.active.len()));
@@ -620,7 +703,7 @@ pub fn aged(seed: u64, n: usize, out: &mut dyn Write) {
         a.stop();
         b.stop();
         let verdict = if bad.is_empty() { "whole-trace".to_string() } else { format!("VIOLATION {}", bad.join("; ")) };
-        let _ = writeln!(out, "G scenario={} cancelable={} idle_cycles={} earlier_traces={} => {}", k, cancelable, idle, warm, verdict);
+        let _ = writeln!(out, "G scenario={} cancelable={} idle_cycles={} earlier_traces={} bulk={} => {}", k, cancelable, idle, warm, bulk, verdict);
     }
     let _ = writeln!(out, "#stat aged:scenarios {}", n);
 }
